@@ -42,6 +42,7 @@ KINDS = [
     ('props.C15', 'channel_source_harness', {'n': 2}, None),
     ('props.C19', 'replication_algebra', {}, None),
     ('props.C10', 'state_lock_harness', {}, None),
+    ('props.C08', 'join_harness', {'algo': 'keyed', 'variant': 'Outer', 'nl': 2, 'nr': 2, 'iters': 1}, None),
     ('props.C09', 'merge_plan_harness', {'nl': 2, 'nr': 2, 'R': 2}, None),
     ('props.C08', 'join_plan_harness', {'api': 'outer_join', 'nl': 2, 'nr': 2, 'R': 2}, None),
     ('props.C08', 'join_plan_harness', {'api': 'broadcast_hash_left', 'nl': 2, 'nr': 2, 'R': 2}, None),
